@@ -103,7 +103,10 @@ def make_polyco(rng, nent=None, spacing=None, monotonic=False):
             rph_k = rph + int(round(float(F(f0_s) * 60 * k * step))) + 1000 * k
         else:
             rph_k = int(10 ** rng.uniform(0, 12))
-        rphase_s = f"{rph_k}.{int(rng.integers(0, 10 ** 6)):06d}"
+        frac6 = int(rng.integers(0, 10 ** 6))
+        if rng.random() < 0.15:
+            frac6 = int(gen.pick(rng, [999999, 999990, 999995, 1, 0, 500000]))      # fractions that round across a whole cycle in one double
+        rphase_s = f"{rph_k}.{frac6:06d}"
         coeffs = []
         for i in range(ncoeff):
             mag = [1e-3, 2.5, 1e-4][i] if i < 3 else 10.0 ** (-4 - 2.2 * (i - 2))
